@@ -27,6 +27,12 @@ type HarnessSpec struct {
 type violAgg struct {
 	First *Violation
 	Count int
+	// other paths violating the same assertion with different inputs: tried
+	// natively when First does not reproduce (an engine-side free choice, such
+	// as the order sort.Slice leaves among equal elements, has no native
+	// counterpart; another input vector may show the same violation for real)
+	Alts    []*Violation
+	altSeen map[string]bool
 }
 
 type PathSample struct {
@@ -149,6 +155,15 @@ func (ex *Explorer) finish(c *Ctx, outcome string) {
 			a.First = v
 		}
 		a.Count++
+		if a.First != v && len(a.Alts) < 40 && len(v.Vector) > 0 {
+			if a.altSeen == nil {
+				a.altSeen = map[string]bool{vecString(a.First.Vector): true}
+			}
+			if vs := vecString(v.Vector); !a.altSeen[vs] {
+				a.altSeen[vs] = true
+				a.Alts = append(a.Alts, v)
+			}
+		}
 	}
 	for l, n := range c.reach {
 		ex.reach[l] += n
